@@ -19,6 +19,7 @@ Section RT4.
     | (k, a, v) =>
       has_dot (etag e) = false /\ lower (etag e) = k /\ (exists idx, index_of k (map fst (ci_spec c)) = Some idx) /\ assoc k (ci_spec c) = Some a
       /\ entry_value sval fe (k, a, e, false) = OK v /\ quiet sval fe (k, a, e, false)
+      /\ match a with AElem _ _ | AListElem _ => text_truthy (etext e) = true | _ => True end
     end.
   Definition sargs (l : list spec3) : list kwval := flat_map (fun s => match s with (_, a, v) => if is_list_attr a then [v] else [] end) l.
   Definition skw (l : list spec3) : list (string * kwval) := flat_map (fun s => match s with (k, a, v) => if is_list_attr a then [] else [(k, v)] end) l.
@@ -40,7 +41,7 @@ Section RT4.
   Proof.
     intros Hr ch specs F. induction F as [|e [[k a] v] ch specs Hg F IH]; intro rn.
     - cbn. repeat split; auto.
-    - destruct Hg as (Hd & Hl & (idx & Hi) & Ha & Hv & Hq).
+    - destruct Hg as (Hd & Hl & (idx & Hi) & Ha & Hv & Hq & _).
       cbn [all_known entries]. unfold groomed_tag. rewrite Hr, Hd, Hl, Hi, Ha. rewrite String.eqb_refl. cbn [negb andb].
       destruct (IH rn) as (I1 & I2 & I3 & I4 & I5 & I6).
       split; [exact I1|]. split; [|split; [|split; [|split]]].
@@ -64,6 +65,95 @@ Section RT4.
     - rewrite I5. exact Hnd.
     - rewrite I5. exact Hfresh.
     - exists p, pl, rn. rewrite Hf, I4, I5. reflexivity.
+  Qed.
+
+
+  (** the same, for a child list read under a groom rename: the renamed flag is threaded; the first child carrying the wire tag is
+      read under the python tag *)
+  Inductive goods (fe : etree -> result (inst * list string)) (c : cinfo) : bool -> list etree -> list spec3 -> Prop :=
+  | goods_nil rn : goods fe c rn [] []
+  | goods_cons rn rn' e ch k a v specs tag idx :
+      groomed_tag c rn (etag e) = (tag, rn') -> has_dot tag = false -> lower tag = k ->
+      index_of k (map fst (ci_spec c)) = Some idx -> assoc k (ci_spec c) = Some a ->
+      entry_value sval fe (k, a, e, negb (String.eqb tag (etag e))) = OK v ->
+      quiet sval fe (k, a, e, negb (String.eqb tag (etag e))) ->
+      goods fe c rn' ch specs -> goods fe c rn (e :: ch) ((k, a, v) :: specs).
+
+  Lemma goods_entries' fe c : forall rn ch specs, goods fe c rn ch specs ->
+      all_known c rn ch = true
+      /\ Convert.map_res (entry_value sval fe) (entries c rn ch) = OK (map (fun s : spec3 => snd s) specs)
+      /\ Forall (quiet sval fe) (entries c rn ch)
+      /\ zip_args sval (entries c rn ch) (map (fun s : spec3 => snd s) specs) = sargs specs
+      /\ zip_kw sval (entries c rn ch) (map (fun s : spec3 => snd s) specs) = skw specs
+      /\ (forall p pl, schain c p pl specs -> chain c p pl (entries c rn ch)).
+  Proof.
+    intros rn ch specs G. induction G as [rn|rn rn' e ch k a v specs tag idx Hg Hd Hl Hi Ha Hv Hq G IH].
+    - cbn. repeat split; auto.
+    - cbn [all_known entries]. rewrite Hg, Hd, Hl, Hi, Ha. cbn [negb andb].
+      destruct IH as (I1 & I2 & I3 & I4 & I5 & I6).
+      split; [exact I1|]. split; [|split; [|split; [|split]]].
+      + cbn [Convert.map_res map snd]. rewrite Hv. cbn [bind]. rewrite I2. reflexivity.
+      + constructor; assumption.
+      + cbn [zip_args map snd is_list_entry sargs flat_map]. rewrite I4. destruct (is_list_attr a); reflexivity.
+      + cbn [zip_kw map snd is_list_entry skw flat_map entry_name]. rewrite I5. destruct (is_list_attr a); reflexivity.
+      + intros p pl [H1 H2]. cbn [chain]. unfold eidx. cbn [entry_name is_list_entry]. unfold sidx in H1, H2. split; [exact H1|apply I6; exact H2].
+  Qed.
+
+  Lemma goods_fold' fe c ch specs args0 kw0 p0 pl0 ws0 rn0 :
+    goods fe c rn0 ch specs -> schain c p0 pl0 specs ->
+    NoDup (map fst (skw specs)) -> (forall k, In k (map fst (skw specs)) -> kw_has sval kw0 k = false) ->
+    exists p pl rn,
+      fold_left (step fe c) ch (OK (args0, kw0, p0, pl0, ws0, rn0))
+      = OK ((rev (sargs specs) ++ args0)%list, (rev (skw specs) ++ kw0)%list, p, pl, ws0, rn).
+  Proof.
+    intros G Hc Hnd Hfresh. destruct (goods_entries' fe c rn0 ch specs G) as (I1 & I2 & I3 & I4 & I5 & I6).
+    destruct (fold_complete sval fe c ch rn0 args0 kw0 p0 pl0 ws0 _ I1 I2 I3 (I6 _ _ Hc)) as (p & pl & rn & Hf).
+    - rewrite I5. exact Hnd.
+    - rewrite I5. exact Hfresh.
+    - exists p, pl, rn. rewrite Hf, I4, I5. reflexivity.
+  Qed.
+
+  (** children whose tags the (possible) rename leaves alone *)
+  Lemma goods_plain fe c rn : forall ch specs, Forall2 (good fe c) ch specs ->
+    (forall e, In e ch -> groomed_tag c rn (etag e) = (etag e, rn)) -> goods fe c rn ch specs.
+  Proof.
+    intros ch specs F. induction F as [|e [[k a] v] ch specs Hg F IH]; intro Hp; [constructor|].
+    destruct Hg as (Hd & Hl & (idx & Hi) & Ha & Hv & Hq & _).
+    apply (goods_cons fe c rn rn e ch k a v specs (etag e) idx); try assumption.
+    - apply Hp. left. reflexivity.
+    - rewrite String.eqb_refl. exact Hv.
+    - rewrite String.eqb_refl. exact Hq.
+    - apply IH. intros e0 Hin. apply Hp. right. exact Hin.
+  Qed.
+
+  Lemma groomed_tag_renamed c t : groomed_tag c true t = (t, true).
+  Proof. unfold groomed_tag. destruct (ci_rename c) as [[w p]|]; reflexivity. Qed.
+
+  (** after ungroom: the first child tagged with the python name carries the wire name; the reader takes it back *)
+  Lemma goods_renamed fe c wire py : ci_rename c = Some (wire, py) -> wire <> py ->
+    forall ch specs, Forall2 (good fe c) ch specs ->
+    (forall e, In e ch -> etag e <> wire) ->
+    (forall e s, In (e, s) (combine ch specs) -> etag e = py -> match s with (_, a, _) => match a with AElem _ _ | AListElem _ => True | _ => False end end) ->
+    goods fe c false (rename_first py wire ch) specs.
+  Proof.
+    intros Hr Hne ch specs F. induction F as [|e [[k a] v] ch specs Hg F IH]; intros Hnw Hleaf; [constructor|].
+    destruct e as [t x cs]. cbn [rename_first]. destruct Hg as (Hd & Hl & (idx & Hi) & Ha & Hv & Hq & Hlf). cbn [etag] in *.
+    destruct (String.eqb_spec t py) as [->|Hnp].
+    - (* this child is the one renamed *)
+      assert (Ha' : match a with AElem _ _ | AListElem _ => True | _ => False end) by (apply (Hleaf (Node py x cs) (k, a, v)); [left; reflexivity|reflexivity]).
+      assert (Htx : text_truthy x = true) by (destruct a; try contradiction; exact Hlf).
+      apply (goods_cons fe c false true (Node wire x cs) ch k a v specs py idx); try assumption.
+      + unfold groomed_tag. rewrite Hr. cbn [negb andb etag]. rewrite String.eqb_refl. reflexivity.
+      + cbn [etag]. unfold ConvertPlaces.entry_value in *. cbn [etext] in *. destruct (is_unsup a); [exact Hv|]. rewrite Htx in *. exact Hv.
+      + cbn [etag]. unfold quiet. cbn [etext]. intros _ Hf. rewrite Htx in Hf. discriminate.
+      + apply goods_plain; [exact F|]. intros e0 _. apply groomed_tag_renamed.
+    - apply (goods_cons fe c false false (Node t x cs) (rename_first py wire ch) k a v specs t idx); try assumption.
+      + unfold groomed_tag. rewrite Hr. cbn [negb andb etag]. destruct (String.eqb_spec t wire) as [E|_]; [|reflexivity].
+        exfalso. apply (Hnw (Node t x cs)); [left; reflexivity|exact E].
+      + cbn [etag]. rewrite String.eqb_refl. exact Hv.
+      + cbn [etag]. rewrite String.eqb_refl. exact Hq.
+      + apply IH; [intros e0 Hin; apply Hnw; right; exact Hin|].
+        intros e0 s0 Hin. apply Hleaf. right. exact Hin.
   Qed.
 
   Lemma forall2_app {A B} (R : A -> B -> Prop) l1 l1' l2 l2' : Forall2 R l1 l1' -> Forall2 R l2 l2' -> Forall2 R (l1 ++ l2) (l1' ++ l2').
